@@ -15,8 +15,8 @@ def gl(n):
 
 
 def _observe(job):
-    fam, pos, theta, npts = job
-    m = O.make(fam, theta)
+    fam, pos, theta, npts = job[:4]
+    m = O.make(fam, theta, as_int=(len(job) > 4 and bool(job[4])))
     g = O.edge_grid(npts)
     n = len(g)
     X = O.mesh(g)
@@ -110,6 +110,7 @@ def run(ctx):
     ctx.assumptions = ['integral form instead of finite differences; the quadrature error bound is self-calibrating',
                        'nothing is checked between grid points / outside [1e-4, 1-1e-4]^2']
     jobs = [(fam, pos, th, npts) for fam in O.FAMS4 for pos, th in enumerate(O.chain(fam, nchain), 1)]
+    jobs += [(fam, 80 + i, float(t), npts, 1) for fam, ts in (('Clayton', (2, 5)), ('Gumbel', (2, 5)), ('Frank', (-3, 4))) for i, t in enumerate(ts)]      # integer-typed parameters
     # Frank's parameter may be arbitrarily close to 0 (0 itself is excluded): two members a few 1e-8 from it
     jobs += [('Frank', 90, 5e-8, npts), ('Frank', 91, -3e-8, npts)]
     with Pool(16) as pool:
